@@ -88,6 +88,9 @@ func (d *hDataSource) Observe(_ context.Context, sv llo.StreamValues, _ llo.DSOp
 type hReportCodec struct {
 	failChannels map[uint32]bool
 	badOpts      map[string]bool
+	// strict: refuse a report that lacks a value, as every real report codec does (JSON: NewTypedTextStreamValue(nil),
+	// EVM: ExtractReportValues / buildPayload); otherwise the report is recorded with the gap in it
+	strict bool
 }
 
 type recordedReport struct {
@@ -104,8 +107,17 @@ func (c *hReportCodec) Encode(r llo.Report, cd llotypes.ChannelDefinition) ([]by
 	if c.failChannels[r.ChannelID] {
 		return nil, errors.New("codec refuses this channel")
 	}
+	if c.strict && cd.ReportFormat == llotypes.ReportFormatJSON {
+		// the real JSON codec decides whether this report can be encoded at all
+		if _, err := (llo.JSONReportCodec{}).Encode(r, cd); err != nil {
+			return nil, err
+		}
+	}
 	vals := make([]any, len(r.Values))
 	for i, v := range r.Values {
+		if v == nil && c.strict {
+			return nil, errors.New("codec refuses a report with a missing value")
+		}
 		vals[i] = svJ(v)
 	}
 	return marshal(J{"kind": "channel", "channel": S(r.ChannelID), "seqNr": S(r.SeqNr), "validAfter": S(r.ValidAfterNanoseconds),
@@ -393,6 +405,7 @@ func opHistory(in J) any {
 		return resErr("factory", err)
 	}
 	hp.loadAttestations(in["attestations"])
+	hp.codec.strict = jBool(in["strictCodec"])
 	var cur llo.Outcome
 	if in["start"] != nil {
 		b, err := hp.p.OutcomeCodec.Encode(jOutcome(in["start"]))
